@@ -75,7 +75,7 @@ Context (find_prob : list (nat * nat) -> T -> T).
 Context (ud : T) (un : nat * nat) (ug : T * nat) (ub : T * list nat).
 
 Notation hgrammar := (@hgrammar T).
-Notation py_random_walk := (py_random_walk zero one add mul leb ofnat find_prob ud un ug ub).
+Notation py_random_walk := (py_random_walk zero one add mul leb ltb ofnat find_prob ud un ug ub).
 Notation m_random_walk := (random_walk zero add mul leb ofnat true).
 Notation m_walk_positions := (walk_positions zero add mul leb ofnat true).
 Notation m_pick_group := (pick_group zero add mul leb ofnat true).
@@ -124,6 +124,60 @@ Proof.
     simpl. reflexivity.
 Qed.
 
+(* what the model selects, in terms of the scan the loops are rewritten to *)
+Lemma model_select (g : hgrammar) (u0 : T) (us : list T) : hbases g <> [] ->
+  match scan add leb (@fst T (list nat)) u0 (hbases g) zero 0 with
+  | (_, Some (_, x)) => In x (hbases g) /\ m_random_walk g u0 us = Some (m_walk_positions g (snd x) us)
+  | (_, None) => In (last (hbases g) ub) (hbases g) /\
+                 m_random_walk g u0 us = Some (m_walk_positions g (snd (last (hbases g) ub)) us)
+  end.
+Proof.
+  intros Hne. unfold random_walk, select.
+  rewrite <- (scan_select add leb (@fst T (list nat)) u0 (hbases g) zero 0).
+  destruct (scan add leb (@fst T (list nat)) u0 (hbases g) zero 0) as [c [[k x]|]] eqn:E.
+  - destruct (scan_nth add leb (@fst T (list nat)) u0 (hbases g) zero 0 k x) as [_ Hn];
+      [rewrite E; reflexivity|]. rewrite Nat.sub_0_r in Hn.
+    split; [eapply nth_error_In; exact Hn|]. simpl option_map. cbv iota.
+    now rewrite (nth_error_nth _ _ _ Hn).
+  - split.
+    + destruct (exists_last Hne) as (l' & a & ->). rewrite last_last. apply in_or_app. right. now left.
+    + simpl option_map. cbv iota. destruct (hbases g) as [|b0 br] eqn:Eb; [contradiction|].
+      rewrite (last_indep (b0 :: br) (zero, []) ub) by discriminate. reflexivity.
+Qed.
+
+(* The equality proof does not follow one fixed generated text.  Its steps:
+   - the body of the per-position loop (group scan written with range + indexing, or with enumerate over
+     the list of groups) is rewritten to the model's scan [walk_pos_body_tac];
+   - the per-position loop is the model's walk_positions [walk_positions_tac];
+   - the selection of the base structure (for ... else with the append loop inside, or a None sentinel with
+     the fall-back after the loop and one append loop) is rewritten to the model's scan; both spellings are
+     tried.  A source of another shape has to be proved equal here first. *)
+Ltac walk_pos_body_tac g :=
+  let i := fresh "i" in let p1 := fresh "p1" in let rnd1 := fresh "rnd1" in
+  let c1 := fresh "c1" in let pt1 := fresh "pt1" in
+  intros i [[[p1 rnd1] c1] pt1]; cbv beta iota zeta; unfold draw, drawn, sub;
+  try (rewrite (for_range_as_enum ug (hrow g (fst (nth i pt1 un))) _
+         (fun index (grp : T * nat) '(cur_prob, pt_item_pt) =>
+            if leb (hd ud rnd1) (add cur_prob (gw grp))
+            then Brk (add cur_prob (gw grp), set_nth pt_item_pt i (fst (nth i pt1 un), index))
+            else Cont (add cur_prob (gw grp), pt_item_pt)))
+      by (intros ? [? ?] ?; reflexivity));
+  unfold for_enum;
+  rewrite (loop_scan add leb gw (hd ud rnd1)
+             (fun (index : nat) (_ : T * nat) (pp : list (nat * nat)) => set_nth pp i (fst (nth i pt1 un), index)))
+    by (intros ? ? ? ?; reflexivity);
+  unfold pos_step; rewrite pick_scan;
+  destruct (scan add leb gw (hd ud rnd1) (hrow g (fst (nth i pt1 un))) zero 0) as [? [[? ?]|]]; reflexivity.
+
+Ltac walk_positions_tac g us u0 c0 vars Hl :=
+  unfold for_enum_cur, for_each;
+  let p := fresh "p" in let c2 := fresh "c2" in let Hpos := fresh "Hpos" in let Hl' := fresh "Hl'" in
+  assert (Hl' : length (map (fun v : nat => (v, 0)) vars) <= length us) by (rewrite map_length; exact Hl);
+  destruct (positions_loop (R := (list (nat * nat) * T * T)%type) g (map (fun v : nat => (v, 0)) vars) [] us u0 c0 Hl')
+    as (p & c2 & Hpos);
+  rewrite (Hpos 0);
+  [ simpl app; rewrite map_map; simpl; rewrite map_id; reflexivity | walk_pos_body_tac g ].
+
 Theorem small_random_walk_eq (g : hgrammar) (u0 : T) (us : list T) :
   hbases g <> [] ->
   (forall b, In b (hbases g) -> length (snd b) <= length us) ->
@@ -131,52 +185,48 @@ Theorem small_random_walk_eq (g : hgrammar) (u0 : T) (us : list T) :
             py_random_walk g (u0 :: us) = (w, one, find_prob w one).
 Proof.
   intros Hne Hlen.
-  unfold Small_walk_gen.py_random_walk, random_walk. cbv zeta.
+  pose proof (model_select g u0 us Hne) as Hm.
+  unfold Small_walk_gen.py_random_walk. cbv zeta.
   unfold draw at 1, drawn at 1. simpl hd. simpl tl.
   match goal with |- context [for_each (hbases g) ?b ?s ?o ?k] => set (Krest := k); set (Oelse := o) end.
-  (* what follows the selection of the base structure: the per-position loop *)
-  assert (HK : forall c0 vars, length vars <= length us ->
-            Krest (c0, map (fun v => (v, 0)) vars) =
-            (m_walk_positions g vars us, one, find_prob (m_walk_positions g vars us) one)).
-  { intros c0 vars Hl. subst Krest. cbv beta iota. unfold for_enum_cur, for_each.
-    destruct (positions_loop (R := list (nat * nat) * T * T) g (map (fun v => (v, 0)) vars) [] us u0 c0
-                ltac:(rewrite map_length; exact Hl)) as (p & c2 & Hpos).
-    rewrite (Hpos 0).
-    - simpl app. rewrite map_map. simpl. rewrite map_id. reflexivity.
-    - intros i [[[p1 rnd1] c1] pt1]. cbv beta iota zeta. unfold draw, drawn, sub.
-      rewrite (for_range_as_enum ug (hrow g (fst (nth i pt1 un))) _
-           (fun index (grp : T * nat) '(cur_prob, pt_item_pt) =>
-              if leb (hd ud rnd1) (add cur_prob (gw grp))
-              then Brk (add cur_prob (gw grp), set_nth pt_item_pt i (fst (nth i pt1 un), index))
-              else Cont (add cur_prob (gw grp), pt_item_pt)))
-        by (intros ix [cp pp] Hix; reflexivity).
-      unfold for_enum.
-      rewrite (loop_scan add leb gw (hd ud rnd1)
-                 (fun (index : nat) (_ : T * nat) (pp : list (nat * nat)) => set_nth pp i (fst (nth i pt1 un), index)))
-        by (intros jx x cur q; reflexivity).
-      unfold pos_step. rewrite pick_scan.
-      destruct (scan add leb gw (hd ud rnd1) (hrow g (fst (nth i pt1 un))) zero 0) as [cc [[kk xx]|]]; reflexivity. }
-  unfold for_each at 1.
-  rewrite (loop_scan add leb (@fst T (list nat)) u0
-             (fun (_ : nat) (item : T * list nat) (pt : list (nat * nat)) => pt ++ map (fun v => (v, 0)) (snd item))).
-  2:{ intros j x cur q. cbv beta iota.
-      destruct (leb u0 (add cur (fst x))); [|reflexivity].
-      rewrite (for_each_append_map (snd x) _ (fun v => (v, 0))); reflexivity. }
-  unfold select. rewrite <- (scan_select add leb (@fst T (list nat)) u0 (hbases g) zero 0).
-  destruct (scan add leb (@fst T (list nat)) u0 (hbases g) zero 0) as [c [[k x]|]] eqn:E.
-  - destruct (scan_nth add leb (@fst T (list nat)) u0 (hbases g) zero 0 k x) as [_ Hn];
-      [rewrite E; reflexivity|]. rewrite Nat.sub_0_r in Hn.
-    exists (m_walk_positions g (snd x) us). simpl option_map. cbv iota.
-    rewrite (nth_error_nth _ _ _ Hn). split; [reflexivity|].
-    simpl app. apply HK. apply Hlen. eapply nth_error_In; exact Hn.
-  - exists (m_walk_positions g (snd (last (hbases g) ub)) us). simpl option_map. cbv iota.
-    split.
-    + destruct (hbases g) as [|b0 br] eqn:Eb; [contradiction|].
-      rewrite (last_indep (b0 :: br) (zero, []) ub) by discriminate. reflexivity.
-    + subst Oelse. cbv beta iota.
-      rewrite (for_each_append_map (snd (last (hbases g) ub)) _ (fun v => (v, 0))) by reflexivity.
-      simpl app. apply HK. apply Hlen.
-      destruct (exists_last Hne) as (l' & a & ->). rewrite last_last. apply in_or_app. right. now left.
+  first
+  [ (* for ... else, the append loop in the breaking branch and in the else block *)
+    solve [
+      assert (HK : forall c0 vars, length vars <= length us ->
+                Krest (c0, map (fun v => (v, 0)) vars) =
+                (m_walk_positions g vars us, one, find_prob (m_walk_positions g vars us) one))
+        by (intros c0 vars Hl; subst Krest; cbv beta iota; walk_positions_tac g us u0 c0 vars Hl);
+      unfold for_each at 1;
+      rewrite (loop_scan add leb (@fst T (list nat)) u0
+                 (fun (_ : nat) (item : T * list nat) (pt : list (nat * nat)) => pt ++ map (fun v => (v, 0)) (snd item)))
+        by (intros j x cur q; cbv beta iota;
+            destruct (leb u0 (add cur (fst x))); [|reflexivity];
+            (* the structure is appended by a loop, or at once (extend + comprehension) *)
+            first [ reflexivity | rewrite (for_each_append_map (snd x) _ (fun v => (v, 0))); reflexivity ]);
+      destruct (scan add leb (@fst T (list nat)) u0 (hbases g) zero 0) as [c [[k x]|]];
+      destruct Hm as [Hin Hm]; eexists; (split; [exact Hm|]);
+      [ simpl app; apply HK; apply Hlen; exact Hin
+      | subst Oelse; cbv beta iota zeta;
+        try (rewrite (for_each_append_map (snd (last (hbases g) ub)) _ (fun v => (v, 0))) by reflexivity);
+        simpl app; apply HK; apply Hlen; exact Hin ] ]
+  | (* a None sentinel set in the breaking branch, the fall-back after the loop, one append loop *)
+    solve [
+      assert (HK : forall c0 (sel : option (T * list nat)),
+                length (snd (match sel with None => last (hbases g) ub | Some b => b end)) <= length us ->
+                Krest (c0, sel) =
+                (m_walk_positions g (snd (match sel with None => last (hbases g) ub | Some b => b end)) us, one,
+                 find_prob (m_walk_positions g (snd (match sel with None => last (hbases g) ub | Some b => b end)) us) one))
+        by (intros c0 sel Hl; subst Krest; cbv beta iota zeta;
+            try (rewrite (for_each_append_map _ _ (fun v => (v, 0))) by reflexivity);
+            cbv beta zeta; simpl app;
+            walk_positions_tac g us u0 c0 (snd (match sel with None => last (hbases g) ub | Some b => b end)) Hl);
+      unfold for_each at 1;
+      rewrite (loop_scan add leb (@fst T (list nat)) u0
+                 (fun (_ : nat) (item : T * list nat) (_ : option (T * list nat)) => Some item))
+        by (intros j x cur q; reflexivity);
+      destruct (scan add leb (@fst T (list nat)) u0 (hbases g) zero 0) as [c [[k x]|]];
+      destruct Hm as [Hin Hm]; eexists; (split; [exact Hm|]); subst Oelse; cbv beta;
+      [ apply (HK c (Some x)) | apply (HK c None) ]; apply Hlen; exact Hin ] ].
 Qed.
 
 (* ---- what the model's walk is, position by position ---- *)
@@ -248,28 +298,28 @@ From Coq Require Import QArith ZArith.
 Close Scope Q_scope.
 
 Theorem small_walk_base_interval_Q :
-  forall one find_prob undef_draw undef_node undef_group undef_base
+  forall one (ltb : Q -> Q -> bool) find_prob undef_draw undef_node undef_group undef_base
          (g : @hgrammar Q) (u0 : Q) (us : list Q) (k : nat),
   hbases g <> [] ->
   (forall b, In b (hbases g) -> length (snd b) <= length us) ->
   (k < length (hbases g))%nat -> Forall (fun w => 0 <= w)%Q (map fst (hbases g)) ->
   (u0 <= nth k (Qcums (map fst (hbases g))) 0)%Q ->
   (k = 0%nat \/ (nth (k - 1) (Qcums (map fst (hbases g))) 0 < u0)%Q) ->
-  map fst (fst (fst (py_random_walk 0%Q one Qplus Qmult Qle_bool (fun n => inject_Z (Z.of_nat n)) find_prob
+  map fst (fst (fst (py_random_walk 0%Q one Qplus Qmult Qle_bool ltb (fun n => inject_Z (Z.of_nat n)) find_prob
                        undef_draw undef_node undef_group undef_base g (u0 :: us))))
   = snd (nth k (hbases g) (0%Q, [])).
 Proof.
-  intros one fp ud un ug ub g u0 us k Hne Hlen Hk Hpos H1 H2.
+  intros one lt fp ud un ug ub g u0 us k Hne Hlen Hk Hpos H1 H2.
   apply small_random_walk_base; [exact Hne|exact Hlen|].
   apply (proj2 (select_interval_Q (map fst (hbases g)) u0 k ltac:(now rewrite map_length) Hpos)). now split.
 Qed.
 
 Theorem small_walk_group_interval_Q :
-  forall one find_prob undef_draw undef_node undef_group undef_base
+  forall one (ltb : Q -> Q -> bool) find_prob undef_draw undef_node undef_group undef_base
          (g : @hgrammar Q) (u0 : Q) (us : list Q) (i v ix k : nat) (u : Q),
   hbases g <> [] ->
   (forall b, In b (hbases g) -> length (snd b) <= length us) ->
-  nth_error (fst (fst (py_random_walk 0%Q one Qplus Qmult Qle_bool (fun n => inject_Z (Z.of_nat n)) find_prob
+  nth_error (fst (fst (py_random_walk 0%Q one Qplus Qmult Qle_bool ltb (fun n => inject_Z (Z.of_nat n)) find_prob
                          undef_draw undef_node undef_group undef_base g (u0 :: us)))) i = Some (v, ix) ->
   nth_error us i = Some u ->
   let ws := weights Qmult (fun n => inject_Z (Z.of_nat n)) (nth v (htable g) []) in
@@ -277,8 +327,8 @@ Theorem small_walk_group_interval_Q :
   (u <= nth k (Qcums ws) 0)%Q -> (k = 0%nat \/ (nth (k - 1) (Qcums ws) 0 < u)%Q) ->
   ix = k.
 Proof.
-  intros one fp ud un ug ub g u0 us i v ix k u Hne Hlen Hn Hu ws Hk Hpos H1 H2.
-  rewrite (small_random_walk_group _ _ _ _ _ _ _ _ _ _ _ g u0 us i v ix u Hne Hlen Hn Hu).
+  intros one lt fp ud un ug ub g u0 us i v ix k u Hne Hlen Hn Hu ws Hk Hpos H1 H2.
+  rewrite (small_random_walk_group _ _ _ _ _ _ _ _ _ _ _ _ g u0 us i v ix u Hne Hlen Hn Hu).
   unfold pick_group. fold ws.
   assert (E : Qsel ws u = Some k) by (apply (proj2 (select_interval_Q ws u k Hk Hpos)); now split).
   unfold Qsel in E. now rewrite E.
